@@ -29,6 +29,8 @@ func main() {
 		engine.ReplayMain(os.Args[2:])
 	case "sig":
 		cmdSig(os.Args[2:])
+	case "raceworker":
+		engine.RaceWorkerMain(os.Args[2:])
 	case "c07worker":
 		engine.C07WorkerMain(os.Args[2:])
 	default:
